@@ -29,7 +29,9 @@
 (* a face is then left open, its three corners are not); 6*volume scales   *)
 (* by |det M|; the centre of mass maps through M; the axis-aligned bounds  *)
 (* are the bounds of the moved points; under similarity maps area scales   *)
-(* by s^2 and the inertia tensor about the centre of mass by s^5 R I R^T.  *)
+(* by s^2 and the inertia tensor about the centre of mass by s^5 R I R^T;  *)
+(* the area of a planar region scales by |det| of the planar map whatever  *)
+(* the map, the length of a planar curve by s under similarities.          *)
 (***************************************************************************)
 EXTENDS Integers, Sequences, FiniteSets, TLC, Json
 
@@ -69,6 +71,11 @@ IsSimilarity(L) == LET G == MulLL(Transpose(L), L) IN
                    /\ G[1][1] = G[2][2] /\ G[2][2] = G[3][3]
                    /\ G[1][2] = 0 /\ G[1][3] = 0 /\ G[2][3] = 0
 ScaleSq(L) == Dot(L[1], L[1])
+\* planar records (2D paths): l = <<<<a, b, 0>>, <<c, e, 0>>, <<0, 0, den>>>> ; the 2x2 block is a similarity
+\* when its columns are orthogonal and equally long; its scale^2 is ColSq / den^2
+ColSq(L) == L[1][1] * L[1][1] + L[2][1] * L[2][1]
+IsSim2(L) == /\ ColSq(L) = L[1][2] * L[1][2] + L[2][2] * L[2][2]
+             /\ L[1][1] * L[1][2] + L[2][1] * L[2][2] = 0
 
 Has(c, f) == f \in DOMAIN c.obs /\ c.obs[f]
 
@@ -118,6 +125,11 @@ Clause(c) ==
                [r \in 1..3 |-> ScaleV(Pow(q, 5), c.obs.inertia[r])] #
                [r \in 1..3 |-> ScaleV(Abs(det) * iden, MulLL(MulLL(M.l, c.inertia), Transpose(M.l))[r])]
             THEN "inertia_tensor_law"
+       \* a planar region under ANY affine map of the plane: area scales by |det2| = |det| / q (l[3][3] = q),
+       \* true factor |det2| / q^2 ; observed 2 A' d^2
+       ELSE IF Has(c, "has_parea") /\ c.obs.parea2 * Pow(q, 3) # Abs(det) * c.parea2 * Pow(d, 2) THEN "planar_area_scales_by_abs_det"
+       \* the length of a planar curve under a similarity of the plane: (length')^2 = s^2 length^2
+       ELSE IF Has(c, "has_plen") /\ IsSim2(M.l) /\ c.obs.plen2 * Pow(q, 2) # ColSq(M.l) * c.plen2 * Pow(d, 2) THEN "planar_length_scales_by_s"
        ELSE "ok"
 
 Init == i = 1
